@@ -37,7 +37,13 @@ POSITIONS = [
     # ---- expression positions
     ("PAssignValue", "m", "e", ["v = $E"]),
     ("PAugAssignValue", "m", "e", ["v += $E"]),
-    ("PAnnAssignValue", "m", "e", ["v: int = $E"]),
+    ("PAnnAssignValue", "m", "e", ["v: \"int\" = $E"]),
+    ("PAttrAssignValue", "m", "e", ["other.v = $E"]),
+    ("PAttrAugAssignValue", "m", "e", ["other.v += $E"]),
+    ("PAttrAnnAssignValue", "m", "e", ["other.v: \"int\" = $E"]),
+    ("PSubscriptAssignValue", "m", "e", ["d[0] = $E"]),
+    ("PChainAssignValue", "m", "e", ["a = b = $E"]),
+    ("PTupleAssignValue", "m", "e", ["a, b = $E, 1"]),
     ("PReturnValue", "m", "e", ["return $E"]),
     ("PCallArg", "m", "e", ["g($E)"]),
     ("PKeywordArg", "m", "e", ["g(k=$E)"]),
@@ -218,6 +224,74 @@ def ty_refs(t):
     return []
 
 
+# ---- nested mentions -----------------------------------------------------------------------
+# A mention may carry further mentions inside the argument list of its call:
+#   mention = (kind, position)  or  (kind, position, subs)      subs = [(slot, node)]
+#   node    = (kind, subs)                                       (a mention without a position of its own)
+# Only call-like kinds ("inst", "call") can have subs.  Syntax.v sees the flattening: every nested
+# mention becomes (kind, position of the outermost mention, chain of slots leading down to it).
+SLOTS = ["SArg", "SKeyword", "SStarArg", "SKwSplat", "SListArg"]
+_SLOT_ORDER = {"SArg": 0, "SListArg": 0, "SStarArg": 1, "SKeyword": 2, "SKwSplat": 3}
+
+
+def m_subs(m):
+    return m[2] if len(m) > 2 else []
+
+
+def args_src(subs):
+    parts = []
+    kw = 0
+    for slot, node in sorted(subs, key=lambda x: _SLOT_ORDER[x[0]]):   # stable: positional, *, keyword, **
+        e = node_src(node)
+        if slot == "SArg":
+            parts.append(e)
+        elif slot == "SListArg":
+            parts.append("[%s]" % e)
+        elif slot == "SStarArg":
+            parts.append("*" + e)
+        elif slot == "SKeyword":
+            parts.append("kw%d=%s" % (kw, e))
+            kw += 1
+        else:
+            parts.append("**" + e)
+    return ", ".join(parts)
+
+
+def node_src(node):
+    k, subs = node
+    if k[0] == "inst":
+        return "%s(%s)" % (cref_src(k[1]), args_src(subs))
+    if k[0] == "attr":
+        assert not subs
+        return "%s.%s" % (k[1], k[2])
+    return "%s.%s(%s)" % (k[1], k[2], args_src(subs))
+
+
+def mention_src(m):
+    return node_src((m[0], m_subs(m)))
+
+
+def flat_mentions(m):
+    """[(kind, position, [slots])] : the mention and everything nested in it, outermost first"""
+    out = []
+
+    def walk(node, chain):
+        out.append((node[0], m[1], chain))
+        for slot, sub in node[1]:
+            walk(sub, chain + [slot])
+
+    walk((m[0], m_subs(m)), [])
+    return out
+
+
+def map_kinds(m, f):
+    """the mention with f applied to every kind in it"""
+    def walk(node):
+        return (f(node[0]), [(s, walk(x)) for s, x in node[1]])
+    k, subs = walk((m[0], m_subs(m)))
+    return (k, m[1], subs) if subs else (k, m[1])
+
+
 def kind_src(k):
     if k[0] == "inst":
         return cref_src(k[1]) + "()"
@@ -234,8 +308,8 @@ def kind_coq(k):
     return "(KCall %s %s)" % (cN(k[1]), cN(k[2]))
 
 
-def mention_coq(m):
-    return "(Mention %s %s)" % (kind_coq(m[0]), m[1])
+def mentions_coq(m):
+    return ["(MentionAt %s %s %s)" % (kind_coq(k), p, clist(chain)) for k, p, chain in flat_mentions(m)]
 
 
 def opt_coq(x, f):
@@ -249,19 +323,21 @@ def clist(xs):
 def method_coq(md):
     return "(Method %s %s %s %s %s)" % (cN(md["name"]), clist([cN(d) for d in md["decos"]]),
                                         clist([opt_coq(p, ty_coq) for p in md["params"]]), opt_coq(md["ret"], ty_coq),
-                                        clist([mention_coq(m) for m in md["body"]]))
+                                        clist([x for m in md["body"] for x in mentions_coq(m)]))
 
 
 def member_coq(m):
+    """list of Syntax.v members (a nested class-level statement flattens into several MStmt)"""
     if m[0] == "attr":
-        return "(MAttr %s %s)" % (cN(m[1]), ty_coq(m[2]))
+        return ["(MAttr %s %s)" % (cN(m[1]), ty_coq(m[2]))]
     if m[0] == "method":
-        return "(MMethod %s)" % method_coq(m[1])
-    return "(MStmt %s)" % mention_coq(m[1])
+        return ["(MMethod %s)" % method_coq(m[1])]
+    return ["(MStmt %s)" % x for x in mentions_coq(m[1])]
 
 
 def class_coq(c):
-    return "(Class %s %s %s)" % (cN(c["name"]), clist([cref_coq(b) for b in c["bases"]]), clist([member_coq(m) for m in c["members"]]))
+    return "(Class %s %s %s)" % (cN(c["name"]), clist([cref_coq(b) for b in c["bases"]]),
+                                 clist([x for m in c["members"] for x in member_coq(m)]))
 
 
 def file_coq(f, c):
@@ -304,13 +380,13 @@ def class_src(c, first="self"):
         if m[0] == "attr":
             body.append("%s: %s" % (m[1], ty_src(m[2])))
         elif m[0] == "stmt":
-            body += class_level_lines([(m[1][1], kind_src(m[1][0]))])
+            body += class_level_lines([(m[1][1], mention_src(m[1]))])
         else:
             md = m[1]
             rcv = None if "staticmethod" in md["decos"] else ("cls" if "classmethod" in md["decos"] else first)
             params = [("p%d" % i, ty_src(t) if t else None) for i, t in enumerate(md["params"])]
             body += render_method(md["name"], md["decos"], params, ty_src(md["ret"]) if md["ret"] else None,
-                                  [(p, kind_src(k)) for k, p in md["body"]], first=rcv)
+                                  [(m[1], mention_src(m)) for m in md["body"]], first=rcv)
             body.append("")
     if not body:
         body = ["pass"]
